@@ -22,16 +22,17 @@ import (
 )
 
 type cancelSpec struct {
-	Idx     int    `json:"idx"`
-	K       int    `json:"in_flight"` // tasks in flight when Cancel is issued
-	W       int    `json:"waiting"`   // stages still waiting (pipeline mode)
-	Mode    string `json:"mode"`      // direct | pipeline
-	Point   string `json:"point"`     // before-run | before-hook | during-command | between-commands | store | after-finished | cond-error
-	Cancels string `json:"cancels"`   // once | twice | concurrent
-	Via     string `json:"via"`       // runner | scheduler
-	Cmd     string `json:"cmd"`       // sleep | busy | ignore-int | builtin
-	Jitter  int    `json:"jitter_us"` // free-running variant: cancel after this many microseconds instead of at a hook
-	Allow   bool   `json:"allow_failure"`
+	Idx         int    `json:"idx"`
+	K           int    `json:"in_flight"` // tasks in flight when Cancel is issued
+	W           int    `json:"waiting"`   // stages still waiting (pipeline mode)
+	Mode        string `json:"mode"`      // direct | pipeline
+	Point       string `json:"point"`     // before-run | before-hook | during-command | between-commands | store | after-finished | cond-error
+	Cancels     string `json:"cancels"`   // once | twice | concurrent
+	Via         string `json:"via"`       // runner | scheduler
+	Cmd         string `json:"cmd"`       // sleep | busy | ignore-int | builtin
+	Jitter      int    `json:"jitter_us"` // free-running variant: cancel after this many microseconds instead of at a hook
+	Allow       bool   `json:"allow_failure"`
+	Interactive bool   `json:"interactive,omitempty"`
 }
 
 type cancelHarness struct {
@@ -175,9 +176,19 @@ func modeCancel1(a args) {
 	runner.VerifSetHandler(ch.handler)
 
 	tr := newQuietRunner()
+	if sp.Interactive {
+		// a terminal nobody types on: the read end goes to the commands, the write end stays open in this process
+		pr, pw, err := os.Pipe()
+		if err != nil {
+			panic(err)
+		}
+		defer pw.Close()
+		tr.Stdin = pr
+	}
 	mkTask := func(id string) *task.Task {
 		t := task.NewTask()
 		t.Name = id
+		t.Interactive = sp.Interactive
 		switch sp.Point {
 		case "during-command", "free", "cond-error":
 			t.Commands = []string{tok("S:"+id+":0") + "; " + blocker(sp.Cmd, pidfile) + "; " + tok("E:"+id+":0"), tok("S:"+id+":1") + "; " + tok("E:"+id+":1")}
